@@ -751,6 +751,11 @@ class CSemantics:
         # But is this correct?
         mid = self.pointer(mid)
         rhs = self.pointer(rhs)
+        if mid.typ.is_scalar and rhs.typ.is_scalar:
+            # Arithmetic operands: usual arithmetic conversions, which start
+            # with the integer promotions.
+            mid = self.promote(mid)
+            rhs = self.promote(rhs)
         common_type = self.get_common_type(mid.typ, rhs.typ, location)
         mid = self.coerce(mid, common_type)
         rhs = self.coerce(rhs, common_type)
